@@ -264,6 +264,12 @@ func init() {
 		NotCovered: "other ways an unmentioned class could matter (inheritance edges of same-named classes)",
 	}, propMeta{Technique: "dependence rule on the registry append over go/ssa", LevelText: "the single registration site is decided.", LevelNote: "registry anchored by name (BuiltinClasses)", DesignRef: "4 ORD-flat; 5 C20"})
 
+	claim("C21", PropertySpec{
+		Engines: []EngineSpec{all("AL")},
+		Clause: "Narrow clause on the alias rows of the type vocabulary: Int and Integer return the same table value; every OptionalX is built by the same union constructor from (value of X, nil value) as the `?X` notation; the factory of every DefaultX has the constructor normal form of the factory of X plus exactly hasDefault and isBuiltin (what the loader sets for is_default); in the argument parser `?` and `*` reach the same flag stores as is_default and is_asterisk; `A|B` and [A, B] go through one union constructor.",
+		NotCovered: "parseTypeString on arbitrary strings (nesting, whitespace), rendering of signatures, `[T]`",
+	}, propMeta{Technique: "constant folding of straight-line factory functions into constructor normal forms (go/ssa) + agreement rules over the type-checked AST of the loader", LevelText: "all 13 alias rows are enumerated and decided; a factory that is not straight-line is undecided, which fails the check.", LevelNote: "labels, table values and factories are resolved from the type-name switch and the package-level initialisers", DesignRef: "5 C21"})
+
 	claim("C22", PropertySpec{
 		Engines: []EngineSpec{rules("ORD", "ORD-row")},
 		Clause: "In every evaluator that records a definition row, the row is captured in the entry block before any token is read (so multi-line definitions are recorded on the row of their first token).",
@@ -283,14 +289,14 @@ func init() {
 	}, propMeta{Technique: "dominance rule over go/ssa", LevelText: "all frame reads feeding keys in frame-switching evaluators are enumerated and decided.", LevelNote: "SetFrame/GetFrame anchored by name on context.Context", DesignRef: "4 ORD-frame; 5 C27"})
 
 	claim("C25", PropertySpec{
-		Engines: []EngineSpec{inPkgs("MO", "cmd/rbs2json"), rules("ORD", "ORD-args")},
-		Clause: "No range over a map in rbs2json leaks iteration order into the emitted JSON; the argument converter appends the six parameter groups in signature order and sets is_default / is_asterisk / key exactly for the groups that need them (groups and flags resolved through their JSON tags).",
-		NotCovered: "RBS type mapping, arity as checked by ti",
+		Engines: []EngineSpec{inPkgs("MO", "cmd/rbs2json"), rules("ORD", "ORD-args"), funcs("REGJ", "cmd/rbs2json")},
+		Clause: "No range over a map in rbs2json leaks iteration order into the emitted JSON; the argument converter appends the six parameter groups in signature order and sets is_default / is_asterisk / key exactly for the groups that need them (groups and flags resolved through their JSON tags); every JSON key the tool emits is read, at the same nesting and with a compatible type, by the loader's structs, and every type-name constant it can emit is a loader keyword or a configured class.",
+		NotCovered: "RBS type mapping beyond name agreement, arity as checked by ti",
 	}, propMeta{Technique: "effect classification of map-range bodies over the type-checked AST", LevelText: "every map range of the tool is enumerated and classified.", LevelNote: "conservative classification", DesignRef: "4 MO; 5 C25"})
 
 	claim("C26", PropertySpec{
-		Engines: []EngineSpec{inPkgs("MO", "cmd/c2json")},
-		Clause: "Determinism clause only: no range over a map in c2json leaks iteration order into the emitted JSON (this settles the sentence 'the output is deterministic' for all inputs as far as map order is concerned).",
+		Engines: []EngineSpec{inPkgs("MO", "cmd/c2json"), funcs("REGJ", "cmd/c2json")},
+		Clause: "No range over a map in c2json leaks iteration order into the emitted JSON (this settles the sentence 'the output is deterministic' for all inputs as far as map order is concerned); every JSON key the tool emits is read by the loader's structs with a compatible type, and every type-name constant it can emit (after the loader's ? * notation rules) is a loader keyword or a configured class.",
 		NotCovered: "the arity equivalence (regex heuristics over C text)",
 	}, propMeta{Technique: "effect classification of map-range bodies over the type-checked AST", LevelText: "every map range of the tool is enumerated and classified.", LevelNote: "conservative classification", DesignRef: "4 MO; 5 C26"})
 }
